@@ -103,7 +103,7 @@ def random_case(rng, max_rows=30, max_feat=12, max_prot=6, nrows=None):
     else:
         prots = [int(v) for v in rng.integers(1, max_prot + 1, nrows)]
     salt = int(rng.integers(0, 1000))
-    odd = int(rng.integers(0, 4))           # which oddities the values carry
+    odd = int(rng.integers(0, 6))           # which oddities the values carry (4, 5: fields that begin with a double quote)
     base = plain_cell(nfeat)
 
     def cell(i, j):
@@ -113,6 +113,8 @@ def random_case(rng, max_rows=30, max_feat=12, max_prot=6, nrows=None):
                 return ""                   # empty field (kept away from the line ends below)
             if odd == 2 and u == 1:
                 return "-%d.%de-0%d" % (i, j, (salt % 9) + 1)
+            if odd == 5 and u == 2:
+                return '"%d.5' % (i + j)     # an unclosed leading quote in a non-last field: fields are split at the separator, nothing else
             return "%d.%04d" % (i * j + salt, (i * 131 + j * 7) % 10000)
         v = base(i, j)
         if odd == 3 and j == nfeat + 4:
@@ -124,9 +126,17 @@ def random_case(rng, max_rows=30, max_feat=12, max_prot=6, nrows=None):
             return "decoy_sp|P%d:%d|X%d" % (i, salt, m)   # the separator inside a protein name
         if odd == 3 and m == 1:
             return "tr|A%d_%d|some protein %d" % (i, salt, i)
+        if odd == 4:
+            # the protein list wrapped in double quotes as a CSV writer would emit it: "P1<TAB>P2<TAB>P3"
+            k = prots[i - 1]
+            return ('"' if m == 1 else "") + "sp|P%05d|G%d_%d_HUMAN" % (salt * 7 + i, i, m) + ('"' if m == k else "")
         return "sp|P%05d|G%d_%d_HUMAN" % (salt * 7 + i, i, m)
 
     lines = render_lines(nfeat, ppos, dd, prots, cell, prot)
+    if salt % 3 == 0:
+        # feature columns whose names begin like the protein column's (left and right of it): the protein column is the one NAMED "Proteins"
+        alt = ["protein_count", "ProteinScore", "proteins2", "nProteins", "PROTEINS_X"]
+        lines[0] = [alt[(k + salt) % len(alt)] + ("_%d" % k) if c.startswith("feat") and (k + salt) % 2 == 0 else c for k, c in enumerate(lines[0])]
     for l in lines:          # the domain: no empty field at a line end
         if l[0] == "":
             l[0] = "0"
